@@ -34,6 +34,7 @@ RULE = (
     ' Round 11: `debug_log`, `warnings=error`, `repath` (Persistence.path reassigned before saving).'
     ' Round 12: `failed_load_first`; the round trips also under `python -O`.'
     ' Round 13: `tilde` (a configured path starting with ~).'
+    ' Round 14: `JSON_LOOKING` text (every pair of JSON structural characters inside text fields).'
 )
 ASSUMPTIONS = [
     "real files in a scratch directory (tmpfs when available), aiofiles and its thread pool unmocked",
